@@ -1,7 +1,7 @@
 #!/bin/sh
 # usage: eval_mutant.sh <Cxx> <a|b> [extra checks...]   -> validates, then runs the target check(s) (quick) on /repo + patch
 P=$1; L=$2; shift 2
-D=/tmp/mutout/$P/$L
+D=${MUTOUT:-/tmp/mutout}/$P/$L
 [ -f $D/patch.diff ] || { echo "no patch in $D"; exit 1; }
 /verif/tools/validate_mutant.sh $D > $D/validate.txt 2>&1
 grep -E '^RESULT' $D/validate.txt
